@@ -205,7 +205,8 @@ def load_state(m, b, st):
                                                           begin_supply_index=D(v["beginIdx"])))
     m._borrows_cache = mk(st["borC"], lambda k, v: Borrow(token=token(k), base_amount=D(v["base"]), amount=D(v["amount"]),
                                                           apy=D(v["apy"]), value=D(v["value"]), begin_borrow_index=D(v["beginIdx"])))
-    b._assets = {}
+    from demeter.broker._typing import AssetDict
+    b._assets = AssetDict()
     for k, v in st["wallet"]:
         b.set_balance(token(k), D(v))
     m.has_update = bool(st.get("hasUpdate", False))
@@ -466,8 +467,20 @@ def gen_op(rng, m, b, env, malformed=0.12):
         if k == "changeCollateral":
             return {"kind": k, "tok": tok, "coll": rng.random() < 0.5}
         return {"kind": "read", "view": rng.choice(VIEWS1), "tok": tok}
+    has_coll = any(v.collateral and env["risk"][k.name]["lt"] > 0 for k, v in m._supplies.items())
+    if has_coll and len(bor) < 2 and rng.random() < 0.3:
+        # steer towards portfolios with debt: borrow a sizeable part of what the collateral allows
+        cands = [t for t in toks if env["risk"][t]["canBorrow"]] or toks
+        tok = rng.choice(cands)
+        try:
+            ref = clone_market(m, False).get_max_borrow_amount(token(tok))
+        except Exception:  # noqa: BLE001
+            ref = D(1)
+        if ref.is_finite() and ref > 0:
+            return {"kind": "borrow", "tok": tok, "amount": fmt((ref * dec_digits(rng, 0.3, 0.98, 4)).normalize())}
     if r < 0.22 or not sup:
-        tok = rng.choice(toks)
+        cands = [t for t in toks if env["risk"][t]["canColl"] and env["risk"][t]["lt"] > 0] if rng.random() < 0.7 else toks
+        tok = rng.choice(cands or toks)
         bal = b._assets[token(tok)].balance if token(tok) in b._assets else D(0)
         coll = m._supplies[token(tok)].collateral if token(tok) in m._supplies and rng.random() < 0.85 else rng.random() < 0.75
         return {"kind": "supply", "tok": tok, "amount": fmt(amount_like(rng, bal)), "coll": coll}
